@@ -39,7 +39,7 @@ var c19Statuses = []int{200, 201, 204, 301, 302, 400, 404, 500}
 var c19Callbacks = []string{"cb", "angular.callbacks._0", "$cb", "a[0]", "jQuery1_2", "回调"}
 
 type c19Case struct {
-	Kind   string `json:"kind"` // helper | render | negotiate
+	Kind   string `json:"kind"` // helper | render | negotiate | after
 	Helper string `json:"helper,omitempty"`
 	First  int    `json:"first,omitempty"`
 	MaxLen int    `json:"max_accept_entries,omitempty"`
@@ -74,6 +74,7 @@ func c19Gen(tier string, emit func(c19Case)) {
 		emit(c19Case{Kind: "helper", Helper: h})
 	}
 	emit(c19Case{Kind: "render"})
+	emit(c19Case{Kind: "after"})
 	for i := 0; i < len(c19Accepts); i++ {
 		emit(c19Case{Kind: "negotiate", First: i, MaxLen: map[string]int{"quick": 3, "thorough": 4}[tier]})
 	}
@@ -138,12 +139,68 @@ func c19Serve(preset string, f func(c *rux.Context)) (*httptest.ResponseRecorder
 	return w, errs, pv
 }
 
+// one plain invocation of every helper (and the failing variants of the encoders)
+type c19Call struct {
+	name string
+	f    func(c *rux.Context)
+}
+
+func c19Catalogue() []c19Call {
+	return []c19Call{
+		{"Text(200)", func(c *rux.Context) { c.Text(200, "t") }},
+		{"HTML(200)", func(c *rux.Context) { c.HTML(200, []byte("<p>h</p>")) }},
+		{"JSON(200, map)", func(c *rux.Context) { c.JSON(200, map[string]any{"a": 1}) }},
+		{"JSON(200, unencodable)", func(c *rux.Context) { c.JSON(200, make(chan int)) }},
+		{"JSONBytes(200)", func(c *rux.Context) { c.JSONBytes(200, []byte(`{"b":2}`)) }},
+		{"JSONP(200)", func(c *rux.Context) { c.JSONP(200, "cb", map[string]any{"a": 1}) }},
+		{"XML(200, struct)", func(c *rux.Context) { c.XML(200, c19XML{ID: 1, Name: "n"}) }},
+		{"XML(200, unencodable)", func(c *rux.Context) { c.XML(200, make(chan int)) }},
+		{"Blob(200)", func(c *rux.Context) { c.Blob(200, "x/blob", []byte("bl")) }},
+		{"Stream(200)", func(c *rux.Context) { c.Stream(200, "x/stream", strings.NewReader("st")) }},
+		{"NoContent", func(c *rux.Context) { c.NoContent() }},
+		{"Redirect(302)", func(c *rux.Context) { c.Redirect("/to", 302) }},
+		{"HTTPError(418)", func(c *rux.Context) { c.HTTPError("teapot", 418) }},
+	}
+}
+
+func c19Observe(f func(c *rux.Context)) string {
+	w, errs, pv := c19Serve("", f)
+	return fmt.Sprintf("status=%d Content-Type=%q body=%q errors=%d panic=%v", w.Code, w.Header().Get("Content-Type"), w.Body.String(), len(errs), pv)
+}
+
+// what each helper produces in a process that has not produced any response yet (taken at program start)
+var c19Pristine = func() []string {
+	var out []string
+	for _, h := range c19Catalogue() {
+		out = append(out, c19Observe(h.f))
+	}
+	return out
+}()
+
 func c19Run(c c19Case, st *fw.Stats) []fw.Viol {
 	var vs []fw.Viol
 	add := func(sig, msg string) {
 		if len(vs) < 6 {
 			vs = append(vs, fw.Viol{Sig: sig, Msg: msg})
 		}
+	}
+	if c.Kind == "after" {
+		// one response built by TWO helper calls in a row (an encoder that failed followed by an error page, say), then
+		// every helper alone on a fresh router: it must produce what it produces in a pristine process
+		cat := c19Catalogue()
+		for i, h1 := range cat {
+			for j, h2 := range cat {
+				_, _, _ = c19Serve("", func(c *rux.Context) { h1.f(c); h2.f(c) })
+				for k, h3 := range cat {
+					st.Evals++
+					st.Nontrivial++
+					if got := c19Observe(h3.f); got != c19Pristine[k] {
+						add("helper:changed-by-earlier-response", fmt.Sprintf("after a response built by %s followed by %s (calls %d,%d), %s on a fresh router produces %s; in a pristine process it produces %s", h1.name, h2.name, i, j, h3.name, got, c19Pristine[k]))
+					}
+				}
+			}
+		}
+		return vs
 	}
 	check := func(what string, w *httptest.ResponseRecorder, pv any, status int, ctype string, bodyOK func([]byte) bool) {
 		st.Evals++
@@ -489,7 +546,7 @@ func c19Run(c c19Case, st *fw.Stats) []fw.Viol {
 var c19Spec = fw.Spec[c19Case]{
 	ID:    "C19",
 	Level: "model_checking",
-	Rule: "complete product: 11 context helpers x 8 status codes x value alphabets (7 strings with HTML / unicode / control characters; maps, structs, pointers, byte and int slices, scalars; unencodable chan / func / NaN / Inf / cyclic values) x preset Content-Type absent / present x another status already selected by an earlier handler; 11 pkg/render functions x 3 preset Content-Types; render.Auto x ALL Accept lists of <=3 (thorough 4) entries over 10 entries (the five supported MIME strings, foo/bar, */*, q-parameters, empty); " +
+	Rule: "complete product: every helper alone on a fresh router after every ordered pair of 13 helper calls built one earlier response (differential against the pristine process); 11 context helpers x 8 status codes x value alphabets (7 strings with HTML / unicode / control characters; maps, structs, pointers, byte and int slices, scalars; unencodable chan / func / NaN / Inf / cyclic values) x preset Content-Type absent / present x another status already selected by an earlier handler; 11 pkg/render functions x 3 preset Content-Types; render.Auto x ALL Accept lists of <=3 (thorough 4) entries over 10 entries (the five supported MIME strings, foo/bar, */*, q-parameters, empty); " +
 		"oracle: recorded status, documented Content-Type (preset preserved by every pkg/render renderer), body decodes back (JSONP unwrapped), first supported entry wins, encoding failures land in Context.Errors / the returned error; every evaluation is non-trivial except single-entry Accept lists",
 	Assume: []string{"text/html negotiation is the code's documented no-op and is modelled as such", "XML round trips use one struct type; encoding/xml has no cycle detection so cyclic values are not offered to it"},
 	Bounds: func(tier string) map[string]any {
